@@ -37,6 +37,7 @@ type OptSpec struct {
 	DefaultMask   string   `json:"default_mask,omitempty"`
 	NoUnquote     bool     `json:"no_unquote,omitempty"`
 	Init          *V       `json:"init,omitempty"`
+	DupTags       bool     `json:"dup_tags,omitempty"` // single-valued tags given twice; the last one counts
 }
 
 type ArgSpec struct {
@@ -273,6 +274,14 @@ func tagKV(b *strings.Builder, k, v string) {
 
 func optTag(o *OptSpec) reflect.StructTag {
 	var b strings.Builder
+	if o.DupTags && o.Long != "" {
+		// earlier duplicates of single-valued tags: the last occurrence counts
+		tagKV(&b, "long", "dup-"+o.Long)
+		tagKV(&b, "description", "an earlier description")
+		if o.ValueName != "" {
+			tagKV(&b, "value-name", "DUP")
+		}
+	}
 	if o.Short != "" {
 		tagKV(&b, "short", o.Short)
 	}
